@@ -438,6 +438,30 @@ pub fn run(out_path: &str, tier: &str) {
 			let der = handcraft(&p256, "ecdsa-sha256", &subj, &[ext_req_attr(&[enc_seq(&[san])])]);
 			bases.push((json!({"origin": "handcrafted", "keyType": "p256", "sigAlg": "ecdsa-sha256", "shape": shape, "expectSupported": false}), der));
 		}
+		// alternative names in forms rcgen cannot carry (registeredID, directoryName, an address of 5 octets, x400Address-like tag),
+		// alone and next to a supported one; extended key usages "any" together with a purpose rcgen cannot carry
+		{
+			let dns = enc_tlv(0x82, b"ok.example");
+			let rid = enc_tlv(0x88, &[0x2a, 0x03, 0x04]);
+			let dirn = enc_tlv(0xa4, &name_der(&[vec![("2.5.4.3", 0x0c, "dir")]]));
+			let ip5 = enc_tlv(0x87, &[10, 0, 0, 1, 9]);
+			let edi = enc_tlv(0xa5, &enc_tlv(0x81, b"party"));
+			let sans: Vec<(&str, Vec<Vec<u8>>)> = vec![
+				("san-registered-id", vec![rid.clone()]), ("san-dns-then-registered-id", vec![dns.clone(), rid.clone()]), ("san-directory-name-then-dns", vec![dirn.clone(), dns.clone()]),
+				("san-address-of-5-octets", vec![dns.clone(), ip5.clone()]), ("san-edi-party-name", vec![edi.clone(), dns.clone()]),
+			];
+			for (shape, list) in sans {
+				let san = ext("2.5.29.17", false, &enc_seq(&list));
+				let der = handcraft(&p256, "ecdsa-sha256", &subj, &[ext_req_attr(&[enc_seq(&[san])])]);
+				bases.push((json!({"origin": "handcrafted", "keyType": "p256", "sigAlg": "ecdsa-sha256", "shape": shape, "expectSupported": false}), der));
+			}
+			for (shape, oids) in [("eku-any-and-private-purpose", vec!["2.5.29.37.0", "1.3.6.1.4.1.55555.3.1"]), ("eku-private-purpose-and-any", vec!["1.3.6.1.4.1.55555.3.1", "2.5.29.37.0"]),
+				("eku-server-and-private-purpose", vec!["1.3.6.1.5.5.7.3.1", "1.3.6.1.4.1.55555.3.1"])] {
+				let e = ext("2.5.29.37", false, &enc_seq(&oids.iter().map(|o| enc_oid(o)).collect::<Vec<_>>()));
+				let der = handcraft(&p256, "ecdsa-sha256", &subj, &[ext_req_attr(&[enc_seq(&[e])])]);
+				bases.push((json!({"origin": "handcrafted", "keyType": "p256", "sigAlg": "ecdsa-sha256", "shape": shape, "expectSupported": false}), der));
+			}
+		}
 		// correctly signed requests under signature algorithms that verifiers know and rcgen does not list
 		for (kinfo, sigalg) in [(&rsa, "rsa-sha1"), (&rsa, "rsa-sha224"), (&rsa, "rsa-pss-sha256"), (&p256, "ecdsa-sha1"), (&p256, "ecdsa-sha224")] {
 			let der = handcraft(kinfo, sigalg, &subj, &[]);
